@@ -5,6 +5,7 @@
 import AL.Impl.Api
 import AL.Properties.C11
 import AL.Spec.X86Families
+import AL.Impl.Faults
 import Std.Data.HashMap
 open AL AL.Impl AL.Gen
 
@@ -100,7 +101,24 @@ def step (st : DState) (line : String) : DState × String :=
     (st, match AL.Spec.X86.decodeAll 64 (unhex hex) with
          | none => "?"
          | some ds => String.intercalate " ; " (ds.map AL.Spec.X86.Dec.render))
+  | ["Q1", hex] =>
+    -- reference decoder: the first instruction only (for the comparison with objdump)
+    (st, match AL.Spec.X86.decode (unhex hex) with
+         | none => "?"
+         | some d => d.render)
   | ["QM", name] => (st, AL.Spec.X86.canonMn name)
+  | ["FC", ext, mallocOk, mmapOk] =>
+    -- C17: asm_create_instance under a refusing OS
+    (st, match createWith (if ext == "1" then some (4096, List.replicate 4096 0xCC) else none) (mallocOk == "1") (mmapOk == "1") with
+         | none => "null"
+         | some _ => "ok")
+  | ["FR", openOk, fstatOk, mallocOk, reads, hex] =>
+    -- C17/C19: asm_read_file; reads = "-" or a comma list of "e" (error) / byte counts
+    let rs : List ReadAns := if reads == "-" then [] else
+      (reads.splitOn ",").map fun t => if t == "e" then ReadAns.err else ReadAns.bytes t.toNat!
+    (st, match readFile (unhex hex) (openOk == "1") (fstatOk == "1") (mallocOk == "1") rs with
+         | none => "null"
+         | some t => if t.isEmpty then "-" else toHex t)
   | ["P", hex] =>
     -- C11: is the (single) line outside the three option-sensitive classes?  "-" = no encoder input
     (st, match AL.Properties.C11.lineEncoderInput (unhex hex) with
@@ -147,6 +165,12 @@ def step (st : DState) (line : String) : DState × String :=
       if a.external then (st, toHex a.mem ++ (if a.oob.isEmpty then " ok" else " BAD"))
       else (st, "internal")
     | "B", [], some a => (st, toString a.bufLen)
+    | "FB", [fopenOk, written, fcloseOk], some a =>
+      -- C17/C19: asm_create_bin_file
+      let (ok, file) := createBinFile a (fopenOk == "1") written.toNat! (fcloseOk == "1")
+      (st, (if ok then "0" else "1") ++ " " ++ (match file with
+        | none => "nofile"
+        | some bs => if bs.isEmpty then "-" else toHex bs))
     | "F", [], some _ => ({ st with insts := st.insts.set! id none }, "0")
     | _, _, _ => (st, "bad-op")
   | _ => (st, "bad-op")
